@@ -61,9 +61,11 @@ ASSUMPTIONS = [
     "or a comparison is not boosted directly (no documented syntax)",
     "SimpleParser/DisMaxParser language: '+w' required, '-w' prohibited, bare words/phrases optional (flat OR) as "
     "documented for PlusMinusPlugin; an expression with only prohibited words is not generated (no documented reading)",
-    "pathological sizes (thousands of nested parentheses hitting the interpreter recursion limit) are not generated; "
-    "nesting depth in soup strings is <= 300; every case is bounded (<= ~1500 characters) and a hang is turned into "
-    "inconclusive by the framework's shard watchdog, not into a verdict",
+    "nesting depth of generated strings is <= 120 in population A; population B (soup: ~0.3% of strings) nests 300 "
+    "groups, where the parser's recursive filters exceed the interpreter's recursion limit with some openers: a "
+    "RecursionError there is classified as the listed finding known:recursion-limit-on-deep-nesting, anywhere else "
+    "it is a violation; every case is bounded (<= ~3000 characters) and a hang is turned into inconclusive by the "
+    "framework's shard watchdog, not into a verdict",
 ]
 SHARDS = {"quick": 4, "thorough": 16}
 BUDGET_S = {"quick": 90, "thorough": 700}
@@ -299,7 +301,9 @@ def gen_soup(rng, W):
             classes.append("_" if sep else "")
         return "".join(parts), tuple(classes)
     if r < 0.78:
-        depth = rng.choice([1, 2, 3, 5, 10, 20, 40, 40, 120, 300])
+        depth = rng.choice([1, 2, 3, 5, 10, 20, 40, 40, 80, 120])
+        if rng.random() < 0.04:
+            depth = 300     # population B: deep enough for the recursive filters to hit the interpreter's limit
         opener = rng.choice(["(", "t:(", "NOT (", "(a ", "((", "\"(", "k:(b OR "])
         inner = rng.choice(["", "a", "a OR b", "AND", "NOT", "n:1", "*", "[a TO b]"])
         closer = rng.choice([")", ")", ")^2", "", ") AND ", ")~"])
@@ -364,9 +368,11 @@ def soup_case(ctx, rng, W):
         except QueryParserError:
             ctx.count("soup.parser_errors")
             continue
-        except RecursionError as e:
-            mech, _ = exc_mech("parse", e)
-            ctx.fail("totality.parse", "parse:exc:RecursionError", wit, traceback.format_exc()[-1500:])
+        except RecursionError:
+            deep = classes and classes[0] == "nest" and classes[4] >= 200
+            ctx.fail("totality.parse", "known:recursion-limit-on-deep-nesting" if deep else "parse:exc:RecursionError",
+                     dict(wit, text=text[:200] + "...(%d chars, nesting depth %s)" % (len(text), classes[4] if deep else "?")),
+                     traceback.format_exc()[-1500:])
             continue
         except Exception as e:  # noqa
             mech, in_harness = exc_mech("parse", e)
@@ -1264,7 +1270,7 @@ def simple_case(ctx, rng, W):
 def run(ctx):
     W = build_world(ctx)
     try:
-        for idx in ctx.cases(quick=750, thorough=6000):
+        for idx in ctx.cases(quick=600, thorough=6000):
             rng = ctx.rng(idx)
             ctx.reseed_global(idx)
             r = rng.random()
